@@ -20,7 +20,12 @@ class Kill(SystemExit):
 
 
 class Sched:
-    def __init__(self, choices, max_steps=100000):
+    def __init__(self, choices, max_steps=100000, policy="choices", timeouts=3):
+        # policy "choices": the drawn list decides; "downstream": always the runnable thread furthest down the
+        # pipeline (writer before compressor before producer), i.e. the strictly sequential execution in which
+        # every item is carried through to the file before the next one is produced
+        self.policy = policy
+        self.timeouts_left = timeouts   # how many timed waits may still expire in this run
         self.choices = list(choices)
         self.ci = 0
         self.threads = {}      # name -> state dict
@@ -73,6 +78,9 @@ class Sched:
                 self.threads["main"]["sem"].release()
             return
         self.branching.append(len(run))
+        if self.policy == "downstream":
+            self.threads[run[-1]]["sem"].release()
+            return
         c = self.choices[self.ci] if self.ci < len(self.choices) else 0
         self.ci += 1
         self.threads[run[c % len(run)]]["sem"].release()
@@ -112,7 +120,12 @@ def make_patches(S, capacity=None):
             try:
                 super().run()
             except Kill:
-                pass
+                return
+            # the thread's function returned (a worker that retires): hand control on, or nobody would ever run
+            st["pending"] = False
+            S.trace.append((me, "exit"))
+            if not S.killed:
+                S._dispatch()
 
     class SQueue:
         count = [0]
@@ -129,9 +142,19 @@ def make_patches(S, capacity=None):
 
         # the whole queue.Queue interface, so that a pipeline written against any part of it runs under
         # the scheduler; every operation is one scheduling point (queue.Queue is linearisable).
-        # Timeouts are modelled as "never fires" (the wait is simply blocking).
+        # A wait with a timeout may expire whenever the scheduler runs the waiting thread while the wait cannot be
+        # satisfied (any delay of the other threads is a legal schedule); at most Sched.timeouts of them expire
+        # per run, after which timed waits simply block, so that a polling loop cannot spin for ever.
+        def _timed(self, timeout):
+            return timeout is not None and S.timeouts_left > 0
+
         def put(self, item, block=True, timeout=None):
-            if block:
+            if block and self._timed(timeout):
+                S.op(("put?", self.qn))
+                if 0 < self.maxsize <= len(self.items):
+                    S.timeouts_left -= 1
+                    raise _queue.Full
+            elif block:
                 S.op(("put", self.qn), lambda: self.maxsize <= 0 or len(self.items) < self.maxsize)
             else:
                 S.op(("put_nowait", self.qn))
@@ -142,7 +165,12 @@ def make_patches(S, capacity=None):
             self.max_len = max(self.max_len, len(self.items))
 
         def get(self, block=True, timeout=None):
-            if block:
+            if block and self._timed(timeout):
+                S.op(("get?", self.qn))
+                if not self.items:
+                    S.timeouts_left -= 1
+                    raise _queue.Empty
+            elif block:
                 S.op(("get", self.qn), lambda: len(self.items) > 0)
             else:
                 S.op(("get_nowait", self.qn))
